@@ -125,7 +125,7 @@ def make_globals(ctx):
         'types': Stub('types', frozenarray=lambda ctx, x, copy=True, dtype=None: x),
         'Integral': int, 'Sequence': (tuple, list),
         'map': lambda ctx, f, it: [ctx.interp.call(f, [x], {}) for x in ops.iterate(ctx, it)],
-        'DimAxis': cls('DimAxis'), 'IntAxis': cls('IntAxis'),
+        'DimAxis': cls('DimAxis', closed=True), 'IntAxis': cls('IntAxis', closed=True),
         'StructuredTopology': cls('StructuredTopology'),
         'TransformChainsTopology': cls('TransformChainsTopology'),
         'DisjointUnionTopology': cls('DisjointUnionTopology'),
@@ -144,11 +144,11 @@ def make_globals(ctx):
 
 
 def mk_dim(i, j, mod, per):
-    return RObj('DimAxis', MRO['DimAxis'], attrs=dict(i=SInt(i), j=SInt(j), mod=SInt(mod), isperiodic=SBool(per)))
+    return RObj('DimAxis', MRO['DimAxis'], attrs=dict(i=SInt(i), j=SInt(j), mod=SInt(mod), isperiodic=SBool(per)), closed=True)
 
 
 def mk_int(i, j, mod, ibound, side):
-    return RObj('IntAxis', MRO['IntAxis'], attrs=dict(i=SInt(i), j=SInt(j), mod=SInt(mod), ibound=ibound, side=SBool(side) if not isinstance(side, bool) else side))
+    return RObj('IntAxis', MRO['IntAxis'], attrs=dict(i=SInt(i), j=SInt(j), mod=SInt(mod), ibound=ibound, side=SBool(side) if not isinstance(side, bool) else side), closed=True)
 
 
 class Axes:
